@@ -143,10 +143,26 @@ func c07Bulk(b *Batch, idx int) {
 // goroutines keep writing and deleting other keys (also in the same shards).
 func c08BulkWalk(b *Batch, idx int) {
 	rng := rand.New(rand.NewSource(b.CaseSeed(idx)))
-	kind := backendKinds[rng.Intn(3)]
+	kind := backendKinds[(idx+b.Index)%3]
 	n := 14000 + rng.Intn(40000)
 	be := newBackend(kind, cache.Config{})
 	t := bulkPopulate(be, rng, n, "stable")
+	// history: a walk aborted by its callback, then some stable entries are deleted (nothing of them may be reported later)
+	stopAt := 10 + rng.Intn(200)
+	seenN := 0
+	_, _ = be.Walk(func([]byte, interface{}, time.Time) error {
+		if seenN++; seenN > stopAt {
+			return errWalkStop
+		}
+		return nil
+	})
+	for i := 0; i < n; i += 97 {
+		k := fmt.Sprintf("stable-%d", i)
+		if be.Delete(bg, []byte(k)) == nil {
+			delete(t.val, k)
+		}
+	}
+	problem := bulkWalkProblems(be, t, func(k string) bool { return k[0] == 's' }) // right after the aborted walk, nothing else running
 	stop := make(chan struct{})
 	var wg sync.WaitGroup
 	var churn int64
@@ -172,7 +188,6 @@ func c08BulkWalk(b *Batch, idx int) {
 		}(w)
 	}
 	walks := 2
-	problem := ""
 	for i := 0; i < walks && problem == ""; i++ {
 		problem = bulkWalkProblems(be, t, func(k string) bool { return k[0] == 's' })
 	}
